@@ -124,6 +124,10 @@ def build_facts(config, thash=None, dhash=None):
     os.makedirs(CACHE, exist_ok=True)
     out = os.path.join(CACHE, "facts-%s-%s.json" % (config, key))
     if os.path.exists(out) and os.path.getsize(out) > 0:
+        try:
+            os.utime(out, None)  # most recently used; pruning goes by this time stamp
+        except OSError:
+            pass
         return out
     tgt = scratch_dir("tgt-" + config)
     tmp_out = out + ".%d.tmp" % os.getpid()
@@ -161,7 +165,8 @@ def _prune_cache(keep=None, max_files=150):
         fs.sort(key=lambda p: os.path.getmtime(p))
         while len(fs) > max_files:
             p = fs.pop(0)
-            if p != keep:
+            # never remove what a concurrent check may be about to load
+            if p != keep and time.time() - os.path.getmtime(p) > 1800:
                 os.remove(p)
     except OSError:
         pass
